@@ -149,6 +149,21 @@ func (s *channelState) receiveWindow(msg pmpx.ChannelWindow) status.Status {
 
 // window
 
+// resendWindow sends a window update which a previous receive could not send,
+// because its context was cancelled while it waited for the write queue.
+func (s *channelState) resendWindow(ctx async.Context) {
+	recv := s.recvBytes.Load()
+	if recv < s.initWindow/2 || s.closed.Load() {
+		return
+	}
+
+	s.recvBytes.Add(-recv)
+	st := s.sender.sendWindow(ctx, recv)
+	if !st.OK() && st.Code != status.CodeClosed && st.Code != status.CodeEnd {
+		s.recvBytes.Add(recv)
+	}
+}
+
 func (s *channelState) decrementSendWindow(ctx async.Context, data []byte) status.Status {
 	// Check data size
 	n := len(data)
